@@ -61,6 +61,11 @@ func (d *coilDevice) serve(conn net.Conn) {
 				}
 			}
 		case 15:
+			// a conforming device: the byte count must be the quantity's, and the frame must carry that many bytes
+			if qty < 1 || qty > 1968 || len(pdu) < 6 || int(pdu[5]) != (qty+7)/8 || len(pdu) != 6+int(pdu[5]) {
+				resp = []byte{pdu[0] | 0x80, 3}
+				break
+			}
 			for i := 0; i < qty; i++ {
 				d.coils[(addr+i)&0xffff] = pdu[6+i/8]&(1<<(i%8)) != 0
 			}
